@@ -11,6 +11,7 @@ pub fn wildcard_match(wild: &str, tame: &str) -> bool {
     let mut wild_iter: Peekable<Chars> = wild.chars().peekable();
     let mut tame_iter: Peekable<Chars> = tame.chars().peekable();
     let mut after_last_wild: Option<Peekable<Chars>> = None;
+    let mut tame_at_last_wild: Option<Peekable<Chars>> = None;
 
     loop {
         let tame_char = tame_iter.peek().copied();
@@ -46,25 +47,26 @@ pub fn wildcard_match(wild: &str, tame: &str) -> bool {
                     // This is needed in cases such as "abcd" matching "a*d"
                     wild_iter.next();
                     after_last_wild = Some(wild_iter.clone());
+                    tame_at_last_wild = Some(tame_iter.clone());
                     continue;
                 } else if let Some(after_last_wild_iter) = &after_last_wild {
-                    // If there is not a new wildcard character, but there has previously been one, move the iterator to
-                    //   immediately after the last wildcard character, and store the next character.
+                    // If there is not a new wildcard character, but there has previously been one, the wildcard
+                    //   must match one more character than was last tried: go back to the character after the one
+                    //   where the previous attempt started, and to immediately after the last wildcard character.
+                    // Going back in the tame string as well is needed in cases such as "aaab" matching "*aab".
                     wild_iter = after_last_wild_iter.clone();
-                    let wild_char = wild_iter.peek().copied();
 
-                    if wild_char.is_none() {
+                    if wild_iter.peek().is_none() {
                         // If there are no more wild characters, this means that the last character of the wild string was a
                         //   wildcard character and the strings matched up to that point. Therefore, the strings match.
                         // For example, "abcd" matches "a*"
                         return true;
-                    } else if tame_char == wild_char {
-                        // If the characters do match, the end of the wildcard segment must have been reached, so increment the
-                        //   iterator.
-                        wild_iter.next();
                     }
 
-                    tame_iter.next();
+                    let mut retry_from = tame_at_last_wild.take().unwrap();
+                    retry_from.next();
+                    tame_iter = retry_from.clone();
+                    tame_at_last_wild = Some(retry_from);
                     continue;
                 } else {
                     // If the characters do not match, are not wildcard, do not follow a wildcard, and do not complete a wildcard
